@@ -98,6 +98,16 @@ def cores(repo):
                 "state the left-hand side leaves (heap mode; `self.left.matches`, `self.right.matches` are opaque calls into the two sides; "
                 "`_left_nocontrib(self.left)`, `isinstance(self.left, Function)`, `self.left.override_frozen()` are read as facts about the left side)."),
          [("Equality", "_do_when")]),
+        (py2lean.Core(
+            repo, "LineMonitor",
+            [("csvpath/util/line_monitor.py", "LineMonitor", ["next_line", "set_end_lines_and_reset"])],
+            heap=True,
+            ignore=LOGGING,
+            ignore_targets=[r"_last_line_stats$"],
+            pure={"len": "Py.len"},
+            doc="C03: the line monitor's counters (`LineMonitor.next_line`, `set_end_lines_and_reset`): physical and data line counts and "
+                "numbers as the run loop steps through the records (heap mode; the `LastLineStats` record is left out)."),
+         [("LineMonitor", "next_line"), ("LineMonitor", "set_end_lines_and_reset")]),
     ]
 
 
